@@ -27,6 +27,7 @@ import (
 var yieldPkgs = map[string]bool{
 	"tkestack.io/kvass/pkg/discovery": true,
 	"tkestack.io/kvass/pkg/explore":   true,
+	"tkestack.io/kvass/pkg/sidecar":   true,
 }
 
 type edit struct {
